@@ -345,7 +345,98 @@ def rule_c(ctx: Ctx) -> None:
                      "find() may serve a cached None: a table added later would stay invisible")
 
 
-RULES = [rule_a, rule_b, rule_c]
+REGISTRATION_METHODS = {"__init__", "add_table", "from_mapping_schema", "copy"}
+STATE_FIELDS = {"mapping", "mapping_trie", "udf_mapping", "udf_trie"}
+
+
+def rule_d(ctx: Ctx) -> None:
+    ctx.rule("C18.d", "lookups are read-only on the registered state: outside the registration methods no schema method stores into, deletes from or calls a "
+                      "mutator on a value obtained from the registered mapping (self.mapping / tries, find(), nested_get()) — a lookup that rewrites the mapping in "
+                      "place makes later answers depend on which lookups ran before")
+    from ..effects import MUTATORS
+
+    sm = ctx.repo.module("sqlglot.schema")
+    n = 0
+    for c in sm.classes.values():
+        for name, md in c.methods().items():
+            if name in REGISTRATION_METHODS:
+                continue
+            n += 1
+            where = f"{c.key}.{name}"
+
+            def from_state(e: ast.AST, tainted: set[str]) -> bool:
+                if isinstance(e, ast.Name):
+                    return e.id in tainted
+                if isinstance(e, ast.Attribute):
+                    return (is_self_attr(e) and e.attr in STATE_FIELDS) or from_state(e.value, tainted)
+                if isinstance(e, ast.Subscript):
+                    return from_state(e.value, tainted)
+                if isinstance(e, ast.Call):
+                    last = e.func.attr if isinstance(e.func, ast.Attribute) else e.func.id if isinstance(e.func, ast.Name) else ""
+                    if last in ("find", "find_udf", "nested_get", "_find_in_trie"):
+                        return True
+                    if isinstance(e.func, ast.Attribute) and e.func.attr in ("get", "setdefault", "values", "items"):
+                        return from_state(e.func.value, tainted)
+                    return False
+                if isinstance(e, (ast.BoolOp,)):
+                    return any(from_state(v, tainted) for v in e.values)
+                if isinstance(e, ast.IfExp):
+                    return from_state(e.body, tainted) or from_state(e.orelse, tainted)
+                if isinstance(e, ast.NamedExpr):
+                    return from_state(e.value, tainted)
+                return False
+
+            tainted: set[str] = set()
+            changed = True
+            while changed:
+                changed = False
+                for st in walk_no_nested(md):
+                    pairs = []
+                    if isinstance(st, ast.Assign):
+                        pairs = [(tg, st.value) for tg in st.targets]
+                    elif isinstance(st, ast.AnnAssign) and st.value is not None:
+                        pairs = [(st.target, st.value)]
+                    elif isinstance(st, ast.NamedExpr):
+                        pairs = [(st.target, st.value)]
+                    elif isinstance(st, (ast.For, ast.comprehension)) and from_state(st.iter, tainted):
+                        # iterating a registered dict yields its keys / items: the elements (nested dicts) are registered objects too
+                        for x in ast.walk(st.target):
+                            if isinstance(x, ast.Name) and x.id not in tainted:
+                                tainted.add(x.id)
+                                changed = True
+                    for tg, val in pairs:
+                        if isinstance(tg, ast.Name) and tg.id not in tainted and from_state(val, tainted):
+                            # a fresh container built *from* the state ({..: .. for ..}, dict(x), list(x)) is not the state
+                            tainted.add(tg.id)
+                            changed = True
+            bad = None
+            for x in walk_no_nested(md):
+                if isinstance(x, ast.Subscript) and isinstance(x.ctx, (ast.Store, ast.Del)) and from_state(x.value, tainted):
+                    # the memo itself (self._find_cache[key] = ...) is not registered state
+                    if is_self_attr(x.value) and x.value.attr not in STATE_FIELDS:
+                        continue
+                    bad = (x, f"stores into {norm(x.value, 40)}")
+                    break
+                if isinstance(x, ast.Call) and isinstance(x.func, ast.Attribute) and x.func.attr in MUTATORS and x.func.attr not in ("get",) and from_state(x.func.value, tainted):
+                    if is_self_attr(x.func.value) and x.func.value.attr not in STATE_FIELDS:
+                        continue
+                    bad = (x, f"calls .{x.func.attr}() on {norm(x.func.value, 40)}")
+                    break
+            if bad:
+                ctx.fail(c.module, bad[0], where, m_stmt(c.module, bad[0]),
+                         f"{name} {bad[1]}, a value obtained from the registered mapping: the lookup edits what was registered, so a schema that served this lookup "
+                         f"answers differently from a fresh one built from the same registrations")
+            else:
+                ctx.ok(f"{where}|read-only on registered state", None)
+    ctx.count("lookup_methods_checked", n)
+    ctx.min_instances("lookup_methods_checked", n, 25)
+
+
+def m_stmt(m, node):
+    return m.enclosing_stmt(node) or node
+
+
+RULES = [rule_a, rule_b, rule_c, rule_d]
 EXPLANATION = (
     "Cache-coherence analysis of MappingSchema computed from the source: dict memos are discovered by pattern (get/in + "
     "item store on a field initialised in __init__), the fields each fill function reads are collected transitively "
